@@ -78,12 +78,32 @@ func vrtHarness_C17_history() {
 	}()
 	ctx, cancel := context.WithTimeout(context.Background(), 2*time.Second)
 	defer cancel()
+	type held struct {
+		r   *[]byte
+		id  uint16
+		tag uint16
+	}
+	var kept []held // replies the callers still hold
+	defer func() {
+		// every reply handed to a caller stays the reply to that caller's query while later queries run
+		for i, h := range kept {
+			vrtAssert("a reply a caller holds is not overwritten by later exchanges", vrtAnd(vrtWireID(*h.r) == h.id, (*h.r)[12] == byte(h.tag>>8)))
+			for j := range kept {
+				if i < j {
+					vrtAssert("two callers never hold the same reply buffer", h.r != kept[j].r)
+				}
+			}
+		}
+	}()
 	for i := 0; i < n; i++ {
 		id := vrtU16()
 		tag := uint16(0x1200 + i)
 		q := vrtWire(id, tag)
 		dialsBefore := tcpDials
 		r, err := u.ExchangeContext(ctx, q)
+		if err == nil && r != nil {
+			kept = append(kept, held{r, id, tag})
+		}
 		onTCP := 0
 		for _, c := range tcps {
 			for _, f := range c.frames {
